@@ -156,7 +156,11 @@ def _getsockname(E, sock):
 
 @register(GhostSocket.recvfrom, "socket.recvfrom")
 def _recvfrom(E, sock, n):
-    """Returns the first n octets of the pending datagram (UDP truncation) and its source."""
+    """Returns the first n octets of the pending datagram (UDP truncation) and its source.  The sockets are non-blocking
+    (UDPLink: setblocking(False)) and ONE datagram is pending per select() wake-up: a second read finds the queue empty."""
+    if sock.attrs.get("pending_consumed"):
+        E.raise_(BlockingIOError, "no datagram pending", implicit="socket")
+    sock.attrs["pending_consumed"] = True
     d = sock.attrs["pending"]
     src = sock.attrs.get("pending_src", ("peer", 1))
     if not isinstance(n, int):
